@@ -253,6 +253,11 @@ def rule_R02_2(ctx):
                 sites.append(("panicking i64 method %s" % c.res, c.loc))
             if (c.res or "").startswith("core::num::<impl i64>::checked_"):
                 n_checked += 1
+        for bb, i, pl, rv, sp in f.assigns():
+            for o in mir.rvalue_operands(rv):
+                k = mir.op_const(o)
+                if k and (k.get("fn") or "").startswith("core::num::<impl i64>::checked_"):
+                    n_checked += 1      # referenced as a function value
         if f.generated:
             gen_sites.extend((f.path, s) for s in sites)
             continue
